@@ -77,7 +77,7 @@ TargetsCompatible(r) ==
 
 \* 3.2 / 3.3: the states named by an initial attribute can be active together
 InitialCompatible(r) ==
-    \A s \in NSr(r) : r.states[s].kind \in {"state"} =>
+    \A s \in NSr(r) : r.states[s].kind \in {"state", "scxml"} =>
         \A i, j \in Seq2Set(r.states[s].initattr) : Compatible(r, Ref(r, i), Ref(r, j))
 
 WellFormed(r) ==
